@@ -328,14 +328,14 @@ Proof.
     destruct y as [spy ty]. cbn [snd] in Hy.
     assert (Eq : block_sequence_entry p false =
                  Ok ((empty_scalar, spy), mkp r (Some (spy, ty)) SBlockSequenceEntry (s :: k) (ae_map e) (ae_next e) tg kp))
-      by (unfold block_sequence_entry; vpeek Hv; cbn; destruct Hy as [-> | ->]; reflexivity).
+      by (destruct Hy as [-> | ->]; unfold block_sequence_entry; vpeek Hv; reflexivity).
     eexists. split; [eapply run_one; exact Eq | reflexivity].
   - destruct (first_tok_spanned _ _ _ _ Hw Hm) as (sp0 & y0 & tx' & -> & [S0 | [? _]]); [|discriminate].
     cbn [app] in Hv.
     assert (Eq : block_sequence_entry p false =
                  parse_node (push_state (mkp (tx' ++ y :: r) (Some (sp0, y0)) st (s :: k) (ae_map e) (ae_next e) tg kp)
                                         SBlockSequenceEntry) true false)
-      by (unfold block_sequence_entry; vpeek Hv; cbn; start_cases y0; reflexivity).
+      by (start_cases y0; unfold block_sequence_entry; vpeek Hv; reflexivity).
     rewrite Eq.
     match type of Eq with _ = parse_node ?q _ _ =>
       apply (Hx true false q ((sp0, y0) :: tx') y r st SBlockSequenceEntry (s :: k) e tg kp Hw eq_refl Hm Hfy
@@ -446,14 +446,14 @@ Proof.
     destruct y as [spy ty]. cbn [snd] in Hy.
     assert (Eq : indentless_sequence_entry p =
                  Ok ((empty_scalar, spy), mkp r (Some (spy, ty)) SIndentlessSequenceEntry (s :: k) (ae_map e) (ae_next e) tg kp))
-      by (unfold indentless_sequence_entry; vpeek Hv; cbn; destruct ty; try discriminate; reflexivity).
+      by (destruct ty; try discriminate; unfold indentless_sequence_entry; vpeek Hv; reflexivity).
     eexists. split; [eapply run_one; exact Eq | reflexivity].
   - destruct (first_tok_spanned _ _ _ _ Hw Hm) as (sp0 & y0 & tx' & -> & [S0 | [? _]]); [|discriminate].
     cbn [app] in Hv.
     assert (Eq : indentless_sequence_entry p =
                  parse_node (push_state (mkp (tx' ++ y :: r) (Some (sp0, y0)) st (s :: k) (ae_map e) (ae_next e) tg kp)
                                         SIndentlessSequenceEntry) true false)
-      by (unfold indentless_sequence_entry; vpeek Hv; cbn; start_cases y0; reflexivity).
+      by (start_cases y0; unfold indentless_sequence_entry; vpeek Hv; reflexivity).
     rewrite Eq.
     match type of Eq with _ = parse_node ?q _ _ =>
       apply (Hx true false q ((sp0, y0) :: tx') y r st SIndentlessSequenceEntry (s :: k) e tg kp Hw eq_refl Hm Hfy
@@ -485,7 +485,7 @@ Proof.
   - cbn in Hm. apply map_snd_nil in Hm as ->. cbn [app] in Hv. destruct x as [spx tx].
     assert (Eq : indentless_sequence_entry p =
                  Ok ((ESequenceEnd, spx), mkp rest (Some (spx, tx)) s k (ae_map e) (ae_next e) tg kp))
-      by (unfold indentless_sequence_entry; vpeek Hv; cbn; cbn [snd] in Hk; destruct tx; try discriminate; reflexivity).
+      by (cbn [snd] in Hk; destruct tx; try discriminate; unfold indentless_sequence_entry; vpeek Hv; reflexivity).
     eexists. split; [eapply run_one; exact Eq | reflexivity].
   - cbn [flat_map] in Hm, Hb. cbn [forallb] in Hw. apply andb_prop in Hw as [Hwx Hw].
     rewrite bound_app in Hb. apply andb_prop in Hb as [Hbx Hb].
@@ -547,14 +547,14 @@ Proof.
       destruct y as [spy ty]. cbn [snd] in Hy.
       assert (Eq : block_mapping_key p false =
                    Ok ((empty_scalar, spy), mkp r (Some (spy, ty)) SBlockMappingValue (s :: k) (ae_map e) (ae_next e) tg kp))
-        by (unfold block_mapping_key; vpeek Hv; cbn; destruct ty; try discriminate; reflexivity).
+        by (destruct ty; try discriminate; unfold block_mapping_key; vpeek Hv; reflexivity).
       eexists. split; [eapply run_one; exact Eq | reflexivity].
     + destruct (first_tok_spanned _ _ _ _ Hw Hm) as (sp0 & y0 & tx' & -> & S0).
       cbn [app] in Hv.
       assert (Eq : block_mapping_key p false =
                    parse_node (push_state (mkp (tx' ++ y :: r) (Some (sp0, y0)) st (s :: k) (ae_map e) (ae_next e) tg kp)
                                           SBlockMappingValue) true true)
-        by (unfold block_mapping_key; vpeek Hv; cbn; destruct S0 as [S0 | [_ ->]]; [start_cases y0|]; reflexivity).
+        by (destruct S0 as [S0 | [_ ->]]; [start_cases y0|]; unfold block_mapping_key; vpeek Hv; reflexivity).
       rewrite Eq.
       match type of Eq with _ = parse_node ?q _ _ =>
         apply (Hx true true q ((sp0, y0) :: tx') y r st SBlockMappingValue (s :: k) e tg kp Hw eq_refl Hm Hfy
@@ -591,14 +591,14 @@ Proof.
       destruct y as [spy ty]. cbn [snd] in Hy.
       assert (Eq : block_mapping_value p =
                    Ok ((empty_scalar, spy), mkp r (Some (spy, ty)) SBlockMappingKey (s :: k) (ae_map e) (ae_next e) tg kp))
-        by (unfold block_mapping_value; vpeek Hv; cbn; destruct ty; try discriminate; reflexivity).
+        by (destruct ty; try discriminate; unfold block_mapping_value; vpeek Hv; reflexivity).
       eexists. split; [eapply run_one; exact Eq | reflexivity].
     + destruct (first_tok_spanned _ _ _ _ Hw Hm) as (sp0 & y0 & tx' & -> & S0).
       cbn [app] in Hv.
       assert (Eq : block_mapping_value p =
                    parse_node (push_state (mkp (tx' ++ y :: r) (Some (sp0, y0)) st (s :: k) (ae_map e) (ae_next e) tg kp)
                                           SBlockMappingKey) true true)
-        by (unfold block_mapping_value; vpeek Hv; cbn; destruct S0 as [S0 | [_ ->]]; [start_cases y0|]; reflexivity).
+        by (destruct S0 as [S0 | [_ ->]]; [start_cases y0|]; unfold block_mapping_value; vpeek Hv; reflexivity).
       rewrite Eq.
       match type of Eq with _ = parse_node ?q _ _ =>
         apply (Hx true true q ((sp0, y0) :: tx') y r st SBlockMappingKey (s :: k) e tg kp Hw eq_refl Hm Hfy
@@ -610,7 +610,7 @@ Proof.
     destruct y as [spy ty]. cbn [snd] in Hyv, Hy.
     assert (Eq : block_mapping_value p =
                  Ok ((empty_scalar, spy), mkp r (Some (spy, ty)) SBlockMappingKey (s :: k) (ae_map e) (ae_next e) tg kp))
-      by (unfold block_mapping_value; vpeek Hv; destruct ty; try discriminate; try reflexivity; congruence).
+      by (destruct ty; try discriminate; try congruence; unfold block_mapping_value; vpeek Hv; reflexivity).
     eexists. split; [eapply run_one; exact Eq | reflexivity].
 Qed.
 
@@ -783,7 +783,7 @@ Proof.
     cbn [app] in Hv.
     assert (Eq : fse_inner q = parse_node (push_state (mkp (tx' ++ y :: r) (Some (sp0, y0)) st (s :: k) (ae_map e) (ae_next e) tg kp)
                                                       SFlowSequenceEntry) false false)
-      by (unfold fse_inner; vpeek Hv; cbn; start_cases y0; reflexivity).
+      by (start_cases y0; unfold fse_inner; vpeek Hv; reflexivity).
     rewrite Eq.
     match type of Eq with _ = parse_node ?q' _ _ =>
       apply (Hx false false q' ((sp0, y0) :: tx') y r st SFlowSequenceEntry (s :: k) e tg kp Hw eq_refl Hm Hfy
@@ -821,14 +821,14 @@ Proof.
           destruct y as [spy ty]. cbn [snd] in Hy.
           assert (Eq : flow_sequence_entry_mapping_value p2 =
                        Ok ((empty_scalar, spy), mkp r (Some (spy, ty)) (SFlowSequenceEntryMappingEnd (sp_end spy)) (s :: k) (ae_map e1) (ae_next e1) tg kp))
-            by (unfold flow_sequence_entry_mapping_value; vpeek V2; cbn; destruct ty; try discriminate; reflexivity).
+            by (destruct ty; try discriminate; unfold flow_sequence_entry_mapping_value; vpeek V2; reflexivity).
           eexists; eexists. split; [eapply run_one; exact Eq | reflexivity].
         + destruct (first_tok_spanned _ _ _ _ Hwv Hmv) as (sp1 & y1 & tv' & -> & [S1 | [? _]]); [|discriminate].
           cbn [app] in V2.
           assert (Eq : flow_sequence_entry_mapping_value p2 =
                        parse_node (push_state (mkp (tv' ++ y :: r) (Some (sp1, y1)) SFlowSequenceEntryMappingValue (s :: k) (ae_map e1) (ae_next e1) tg kp)
                                               (SFlowSequenceEntryMappingEnd (sp_end sp1))) false false)
-            by (unfold flow_sequence_entry_mapping_value; vpeek V2; cbn; start_cases y1; reflexivity).
+            by (start_cases y1; unfold flow_sequence_entry_mapping_value; vpeek V2; reflexivity).
           rewrite Eq.
           match type of Eq with _ = parse_node ?q' _ _ =>
             destruct (Hvn false false q' ((sp1, y1) :: tv') y r SFlowSequenceEntryMappingValue (SFlowSequenceEntryMappingEnd (sp_end sp1))
@@ -840,7 +840,7 @@ Proof.
         destruct y as [spy ty]. cbn [snd] in Hy.
         assert (Eq : flow_sequence_entry_mapping_value p2 =
                      Ok ((empty_scalar, spy), mkp r (Some (spy, ty)) (SFlowSequenceEntryMappingEnd (sp_end spy)) (s :: k) (ae_map e1) (ae_next e1) tg kp))
-          by (unfold flow_sequence_entry_mapping_value; vpeek V2; cbn; destruct ty; try discriminate; reflexivity).
+          by (destruct ty; try discriminate; unfold flow_sequence_entry_mapping_value; vpeek V2; reflexivity).
         eexists; eexists. split; [eapply run_one; exact Eq | reflexivity]. }
     (* the token after the key *)
     assert (Hyk : exists yk rk, tvv ++ tv ++ y :: r = yk :: rk /\ follow (snd yk) = true).
@@ -852,7 +852,7 @@ Proof.
     assert (E2 : state_machine (mkp (((sp0, y0) :: tk') ++ tvv ++ tv ++ y :: r) None SFlowSequenceEntryMappingKey (s :: k) (ae_map e) (ae_next e) tg kp) =
                  parse_node (push_state (mkp (tk' ++ tvv ++ tv ++ y :: r) (Some (sp0, y0)) SFlowSequenceEntryMappingKey (s :: k) (ae_map e) (ae_next e) tg kp)
                                         SFlowSequenceEntryMappingValue) false false)
-      by (unfold state_machine, flow_sequence_entry_mapping_key; cbn; start_cases y0; reflexivity).
+      by (start_cases y0; reflexivity).
     match type of E2 with _ = parse_node ?q' _ _ =>
       destruct (Hk false false q' ((sp0, y0) :: tk') yk rk SFlowSequenceEntryMappingKey SFlowSequenceEntryMappingValue
                    (s :: k) e tg kp Hwk ltac:(cbn [view upcoming mkp push_state set_states p_token p_toks p_state p_states p_anchors p_anchor_id p_tags p_keep_tags app]; rewrite Eyk; reflexivity)
@@ -1032,14 +1032,14 @@ Proof.
       destruct y as [spy ty]. cbn [snd] in Hy.
       assert (Eq : flow_mapping_value p false =
                    Ok ((empty_scalar, spV), mkp r (Some (spy, ty)) SFlowMappingKey (s :: k) (ae_map e) (ae_next e) tg kp))
-        by (unfold flow_mapping_value; vpeek Hv; cbn; destruct ty; try discriminate; reflexivity).
+        by (destruct ty; try discriminate; unfold flow_mapping_value; vpeek Hv; reflexivity).
       eexists. split; [eapply run_one; exact Eq | reflexivity].
     + destruct (first_tok_spanned _ _ _ _ Hw Hm) as (sp0 & y0 & tx' & -> & [S0 | [? _]]); [|discriminate].
       cbn [app] in Hv.
       assert (Eq : flow_mapping_value p false =
                    parse_node (push_state (mkp (tx' ++ y :: r) (Some (sp0, y0)) st (s :: k) (ae_map e) (ae_next e) tg kp)
                                           SFlowMappingKey) false false)
-        by (unfold flow_mapping_value; vpeek Hv; cbn; start_cases y0; reflexivity).
+        by (start_cases y0; unfold flow_mapping_value; vpeek Hv; reflexivity).
       rewrite Eq.
       match type of Eq with _ = parse_node ?q _ _ =>
         apply (Hx false false q ((sp0, y0) :: tx') y r st SFlowMappingKey (s :: k) e tg kp Hw eq_refl Hm Hfy
@@ -1050,7 +1050,7 @@ Proof.
     destruct y as [spy ty]. cbn [snd] in Hy.
     assert (Eq : flow_mapping_value p false =
                  Ok ((empty_scalar, spy), mkp r (Some (spy, ty)) SFlowMappingKey (s :: k) (ae_map e) (ae_next e) tg kp))
-      by (unfold flow_mapping_value; vpeek Hv; destruct ty; try discriminate; reflexivity).
+      by (destruct ty; try discriminate; unfold flow_mapping_value; vpeek Hv; reflexivity).
     eexists. split; [eapply run_one; exact Eq | reflexivity].
 Qed.
 
@@ -1103,7 +1103,7 @@ Proof.
       unfold token in *; rewrite Eyk in Hv. destruct yk as [spy ty]. cbn [snd] in Hyk.
       assert (Eq : fmk_inner q sp =
                    Ok ((empty_scalar, spy), mkp rk (Some (spy, ty)) SFlowMappingValue (s :: k) (ae_map e) (ae_next e) tg kp))
-        by (unfold fmk_inner; vpeek Hv; cbn; destruct Hyk as [-> | Hyk]; [reflexivity|]; destruct ty; try discriminate; reflexivity).
+        by (destruct Hyk as [-> | Hyk]; [|destruct ty; try discriminate]; unfold fmk_inner; vpeek Hv; reflexivity).
       destruct (Hval (mkp rk (Some (spy, ty)) SFlowMappingValue (s :: k) (ae_map e) (ae_next e) tg kp)
                   ltac:(rewrite Eyk; reflexivity)) as (p2 & R2 & V2).
       exists p2. split; [|exact V2]. eapply run_cons; [exact Eq | exact R2].
@@ -1112,7 +1112,7 @@ Proof.
       assert (Eq : fmk_inner q sp =
                    parse_node (push_state (mkp (tk' ++ tvv ++ tv ++ y :: r) (Some (sp0, y0)) st (s :: k) (ae_map e) (ae_next e) tg kp)
                                           SFlowMappingValue) false false)
-        by (unfold fmk_inner; vpeek Hv; cbn; start_cases y0; reflexivity).
+        by (start_cases y0; unfold fmk_inner; vpeek Hv; reflexivity).
       match type of Eq with _ = parse_node ?q' _ _ =>
         destruct (Hk false false q' ((sp0, y0) :: tk') yk rk st SFlowMappingValue (s :: k) e tg kp Hwk
                      ltac:(cbn [view upcoming mkp push_state set_states p_token p_toks p_state p_states p_anchors p_anchor_id p_tags p_keep_tags app]; rewrite Eyk; reflexivity)
@@ -1139,7 +1139,7 @@ Proof.
       assert (Eq : fmk_inner q sp =
                    parse_node (push_state (mkp (tk' ++ y :: r) (Some (sp0, y0)) st (s :: k) (ae_map e) (ae_next e) tg kp)
                                           SFlowMappingEmptyValue) false false)
-        by (unfold fmk_inner; vpeek Hv; cbn; start_cases y0; reflexivity).
+        by (start_cases y0; unfold fmk_inner; vpeek Hv; reflexivity).
       match type of Eq with _ = parse_node ?q' _ _ =>
         destruct (Hk false false q' ((sp0, y0) :: tk') y r st SFlowMappingEmptyValue (s :: k) e tg kp Hwk eq_refl
                      Hmk Hfy ltac:(discriminate) Hbk Hn) as (p1 & R1 & V1)
@@ -1150,4 +1150,342 @@ Proof.
       cbn [pre_events number number1 pnull reg fst]. econstructor; [|constructor].
       rewrite (sm_flow_mapping_empty_value p1 (view_state _ _ _ _ _ _ _ _ V1)).
       unfold flow_mapping_value. vpeek V1. reflexivity.
+Qed.
+
+Definition EntSpec (en : entry ltree) : Prop := NodeSpec (snd (fst en)) /\ NodeSpec (snd (snd en)).
+
+Lemma fm_next (ts ttr : list token) (ents : list (entry ltree)) trail spE rest :
+  map snd ts = flat_map (fun en => TFlowEntry :: ent_toks tokens_of en) ents ->
+  map snd ttr = flag trail TFlowEntry ->
+  exists y r, ts ++ ttr ++ (spE, TFlowMappingEnd) :: rest = y :: r /\ fen_fme (snd y) = true.
+Proof.
+  destruct ents as [|en ents]; cbn [flat_map]; intros H Ht.
+  - apply map_snd_nil in H as ->. destruct trail; cbn in Ht.
+    + apply map_snd_cons in Ht as (sp & t2 & -> & _). cbn. eauto.
+    + apply map_snd_nil in Ht as ->. cbn. eauto.
+  - cbn [app] in H. apply map_snd_cons in H as (sp & t2 & -> & _). cbn. eauto.
+Qed.
+
+Lemma fm_entries ents : Forall EntSpec ents ->
+  forall p ts ttr trail spE rest st s k e tg kp,
+  forallb (fment_wf (wf false false)) ents = true ->
+  view p = mkv (ts ++ ttr ++ (spE, TFlowMappingEnd) :: rest) st (s :: k) (ae_map e) (ae_next e) tg kp ->
+  map snd ts = flat_map (fun en => TFlowEntry :: ent_toks tokens_of en) ents ->
+  map snd ttr = flag trail TFlowEntry ->
+  bound tg e (flat_map (ent_pre pre_events) ents) = true -> (0 < ae_next e)%N ->
+  exists p2, run (flow_mapping_key p false) (number tg e (flat_map (ent_pre pre_events) ents) ++ [EMappingEnd]) p2 /\
+     view p2 = mkv rest s k (ae_map (env_after e (flat_map (ent_pre pre_events) ents)))
+                   (ae_next (env_after e (flat_map (ent_pre pre_events) ents))) tg kp.
+Proof.
+  induction 1 as [|en ents Hx HF IH]; intros p ts ttr trail spE rest st s k e tg kp Hw Hv Hm Ht Hb Hn.
+  - cbn in Hm. apply map_snd_nil in Hm as ->. cbn [app] in Hv. destruct trail; cbn in Ht.
+    + apply map_snd_cons in Ht as (spF & t2 & -> & Ht). apply map_snd_nil in Ht as ->. cbn [app] in Hv.
+      eexists. split.
+      * cbn [flat_map number app]. eapply run_one. unfold flow_mapping_key. vpeek Hv. reflexivity.
+      * reflexivity.
+    + apply map_snd_nil in Ht as ->. cbn [app] in Hv.
+      eexists. split.
+      * cbn [flat_map number app]. eapply run_one. unfold flow_mapping_key. vpeek Hv. reflexivity.
+      * reflexivity.
+  - destruct en as [[kt kn] [vt vn]]. destruct Hx as [Hk Hvn]. cbn [fst snd] in Hk, Hvn.
+    cbn [flat_map ent_pre] in Hm, Hb. cbn [forallb] in Hw. apply andb_prop in Hw as [Hwx Hw].
+    rewrite bound_app in Hb. apply andb_prop in Hb as [Hbx Hb].
+    apply map_snd_app in Hm as (t1 & ts' & -> & Hm1 & Hm).
+    apply map_snd_cons in Hm1 as (spF & te & -> & Hme).
+    destruct (fm_next ts' ttr ents trail spE rest Hm Ht) as (y & r & Ey & Hy).
+    cbn [app] in Hv. rewrite <- !app_assoc in Hv. unfold token in *; rewrite Ey in Hv.
+    destruct (fm_entry kt kn vt vn Hk Hvn (mkp (te ++ y :: r) None st (s :: k) (ae_map e) (ae_next e) tg kp) spF te y r st s k e tg kp
+                Hwx eq_refl Hme Hy Hbx Hn) as (p1 & R1 & V1).
+    destruct (IH p1 ts' ttr trail spE rest SFlowMappingKey s k _ tg kp Hw
+                 ltac:(rewrite V1; f_equal; symmetry; exact Ey) Hm Ht Hb (env_after_pos _ _ Hn)) as (p2 & R2 & V2).
+    exists p2. cbn [flat_map ent_pre].
+    rewrite (number_app tg (pre_events kn ++ pre_events vn) e (flat_map (ent_pre pre_events) ents)).
+    rewrite (env_after_app e (pre_events kn ++ pre_events vn) (flat_map (ent_pre pre_events) ents)).
+    rewrite <- (app_assoc (number tg e (pre_events kn ++ pre_events vn))).
+    split; [|exact V2].
+    eapply run_eq; [exact (fmk_next _ _ _ _ _ _ _ _ _ Hv)|].
+    eapply run_app; [exact R1|]. apply run_steps.
+    rewrite (sm_flow_mapping_key p1 (view_state _ _ _ _ _ _ _ _ V1)). exact R2.
+Qed.
+
+Lemma fm_first kt kn vt vn (te : list token) : fment_wf (wf false false) (kt, kn, (vt, vn)) = true ->
+  map snd te = ent_toks tokens_of (kt, kn, (vt, vn)) ->
+  exists sp0 y0 te', te = (sp0, y0) :: te' /\ y0 <> TFlowMappingEnd.
+Proof.
+  cbn [fment_wf ent_toks]. intros Hw Hm.
+  apply andb_prop in Hw as [Hw Hkt]. apply andb_prop in Hw as [Hw Hwv]. apply andb_prop in Hw as [Hvt Hwk].
+  destruct kt; cbn [flag app] in Hm.
+  - apply map_snd_cons in Hm as (sp0 & te' & -> & _). do 3 eexists. split; [reflexivity|discriminate].
+  - cbn [orb] in Hkt. destruct vt.
+    + destruct kn; try discriminate. cbn [tokens_of flag app] in Hm.
+      apply map_snd_cons in Hm as (sp0 & te' & -> & _). do 3 eexists. split; [reflexivity|discriminate].
+    + destruct (is_none kn) eqn:EN; [discriminate|]. cbn [orb] in Hwk.
+      apply map_snd_app in Hm as (tk & t2 & -> & Hmk & _).
+      destruct (first_tok_spanned _ _ _ _ Hwk Hmk) as (sp0 & y0 & tk' & -> & [S0 | [? _]]); [|discriminate].
+      do 3 eexists. split; [reflexivity|]. intros ->. discriminate.
+Qed.
+
+Lemma node_fmap pr ents trail : Forall EntSpec ents -> NodeSpec (LFMap pr ents trail).
+Proof.
+  intros HF b i p ts x rest st0 s k e tg kp Hw Hv Hm Hf _ Hb Hn. open_env e a n.
+  cbn [wf] in Hw. apply andb_prop in Hw as [Hw Htr].
+  cbn [tokens_of] in Hm.
+  apply map_snd_app in Hm as (tp & t2 & -> & Hmp & Hm).
+  apply map_snd_cons in Hm as (spS & t3 & -> & Hm).
+  apply map_snd_app in Hm as (tb & t4 & -> & Hmb & Hm).
+  apply map_snd_app in Hm as (ttr & t5 & -> & Hmt & Hm).
+  apply map_snd_cons in Hm as (spE & t6 & -> & Hm). apply map_snd_nil in Hm as ->.
+  rewrite <- !app_assoc in Hv. cbn [app] in Hv. rewrite <- !app_assoc in Hv. cbn [app] in Hv.
+  cbn [pre_events] in Hb |- *. apply bound_coll in Hb as [Hb1 Hb]. cbn [bound1] in Hb1.
+  destruct (parse_node_props pr p _ _ _ _ _ _ _ _ _ b i Hv Hmp eq_refl Hb1) as (q & Eq & Vq).
+  unfold node_content in Eq. vpeek_in Vq Eq. cbn in Eq.
+  set (e1 := snd (reg (pr_anchor pr) (penv a n))) in *.
+  assert (Hn1 : (0 < ae_next e1)%N) by (apply reg_next_pos; exact Hn).
+  rewrite number_coll, env_after_coll. cbn [env_step number1]. fold e1.
+  destruct ents as [|en ents].
+  - cbn [map fsep] in Hmb. apply map_snd_nil in Hmb as ->. cbn [negb nonempty orb] in Htr.
+    destruct trail; [discriminate|]. cbn in Hmt. apply map_snd_nil in Hmt as ->. cbn [app] in Eq.
+    eexists. split.
+    + eapply run_cons; [exact Eq|]. cbn [flat_map number app]. econstructor; [|constructor]. reflexivity.
+    + reflexivity.
+  - cbn [map fsep] in Hmb. rewrite flat_map_sep in Hmb.
+    apply map_snd_app in Hmb as (te & ts' & -> & Hme & Hms).
+    cbn [forallb] in Hw. apply andb_prop in Hw as [Hwx Hw].
+    cbn [flat_map] in Hb |- *. rewrite bound_app in Hb. apply andb_prop in Hb as [Hbx Hb].
+    inversion HF as [|? ? Hx HF']; subst.
+    destruct en as [[kt kn] [vt vn]]. destruct Hx as [Hk Hvn]. cbn [fst snd] in Hk, Hvn.
+    destruct (fm_first kt kn vt vn te Hwx Hme) as (sp0 & y0 & te' & -> & Hy0).
+    destruct (fm_next ts' ttr ents trail spE (x :: rest) Hms Hmt) as (y & r & Ey & Hy).
+    rewrite <- !app_assoc in Eq. cbn [app] in Eq. unfold token in *; rewrite Ey in Eq.
+    cbn [ent_pre] in Hbx |- *.
+    destruct (fm_entry kt kn vt vn Hk Hvn (mkp (te' ++ y :: r) (Some (sp0, y0)) SFlowMappingFirstKey (s :: k) (ae_map e1) (ae_next e1) tg kp)
+                sp0 ((sp0, y0) :: te') y r SFlowMappingFirstKey s k e1 tg kp Hwx eq_refl Hme Hy Hbx Hn1) as (p1 & R1 & V1).
+    destruct (fm_entries ents HF' p1 ts' ttr trail spE (x :: rest) SFlowMappingKey s k _ tg kp Hw
+                 ltac:(rewrite V1; f_equal; symmetry; exact Ey) Hms Hmt Hb (env_after_pos _ _ Hn1)) as (p2 & R2 & V2).
+    exists p2.
+    rewrite (number_app tg (pre_events kn ++ pre_events vn) e1 (flat_map (ent_pre pre_events) ents)).
+    rewrite (env_after_app e1 (pre_events kn ++ pre_events vn) (flat_map (ent_pre pre_events) ents)).
+    rewrite <- (app_assoc (number tg e1 (pre_events kn ++ pre_events vn))).
+    split; [|exact V2].
+    eapply run_cons; [exact Eq|]. eapply steps_app.
+    + apply run_steps. cbn [state_machine p_state set_state mkp].
+      eapply run_eq; [apply (fmk_first sp0 y0 _ _ _ _ _ _ _ _ Hy0)|]. exact R1.
+    + apply run_steps. rewrite (sm_flow_mapping_key p1 (view_state _ _ _ _ _ _ _ _ V1)). exact R2.
+Qed.
+
+(* ---------- the induction on trees ---------- *)
+Section ltree_ind2.
+  Variable P : ltree -> Prop.
+  Hypothesis HS : forall pr st v, P (LScalar pr st v).
+  Hypothesis HA : forall n, P (LAlias n).
+  Hypothesis HN : P LNone.
+  Hypothesis HP : forall pr, P (LProps pr).
+  Hypothesis HBS : forall pr items, Forall P items -> P (LBSeq pr items).
+  Hypothesis HIS : forall pr items, Forall P items -> P (LISeq pr items).
+  Hypothesis HBM : forall pr ents, Forall (fun en : entry ltree => P (snd (fst en)) /\ P (snd (snd en))) ents -> P (LBMap pr ents).
+  Hypothesis HFS : forall pr ents tr,
+      Forall (fun en : ltree + (ltree * (bool * ltree)) =>
+                match en with inl n => P n | inr (kn, (_, vn)) => P kn /\ P vn end) ents -> P (LFSeq pr ents tr).
+  Hypothesis HFM : forall pr ents tr, Forall (fun en : entry ltree => P (snd (fst en)) /\ P (snd (snd en))) ents -> P (LFMap pr ents tr).
+
+  Fixpoint ltree_ind2 (t : ltree) : P t :=
+    match t with
+    | LScalar pr st v => HS pr st v
+    | LAlias n => HA n
+    | LNone => HN
+    | LProps pr => HP pr
+    | LBSeq pr items =>
+        HBS pr items ((fix go (l : list ltree) : Forall P l :=
+                         match l with [] => Forall_nil _ | x :: r => Forall_cons _ (ltree_ind2 x) (go r) end) items)
+    | LISeq pr items =>
+        HIS pr items ((fix go (l : list ltree) : Forall P l :=
+                         match l with [] => Forall_nil _ | x :: r => Forall_cons _ (ltree_ind2 x) (go r) end) items)
+    | LBMap pr ents =>
+        HBM pr ents ((fix go (l : list (entry ltree)) : Forall (fun en : entry ltree => P (snd (fst en)) /\ P (snd (snd en))) l :=
+                        match l with
+                        | [] => Forall_nil _
+                        | (kt, kn, (vt, vn)) :: r => Forall_cons (kt, kn, (vt, vn)) (conj (ltree_ind2 kn) (ltree_ind2 vn)) (go r)
+                        end) ents)
+    | LFSeq pr ents tr =>
+        HFS pr ents tr ((fix go (l : list (ltree + (ltree * (bool * ltree)))) :
+                           Forall (fun en => match en with inl n => P n | inr (kn, (_, vn)) => P kn /\ P vn end) l :=
+                           match l with
+                           | [] => Forall_nil _
+                           | inl n :: r => Forall_cons (inl n) (ltree_ind2 n) (go r)
+                           | inr (kn, (vt, vn)) :: r => Forall_cons (inr (kn, (vt, vn))) (conj (ltree_ind2 kn) (ltree_ind2 vn)) (go r)
+                           end) ents)
+    | LFMap pr ents tr =>
+        HFM pr ents tr ((fix go (l : list (entry ltree)) : Forall (fun en : entry ltree => P (snd (fst en)) /\ P (snd (snd en))) l :=
+                           match l with
+                           | [] => Forall_nil _
+                           | (kt, kn, (vt, vn)) :: r => Forall_cons (kt, kn, (vt, vn)) (conj (ltree_ind2 kn) (ltree_ind2 vn)) (go r)
+                           end) ents)
+    end.
+End ltree_ind2.
+
+Theorem node_spec : forall t, NodeSpec t.
+Proof.
+  apply ltree_ind2.
+  - exact node_scalar.
+  - exact node_alias.
+  - exact node_none.
+  - exact node_props_only.
+  - exact node_bseq.
+  - exact node_iseq.
+  - exact node_bmap.
+  - exact node_fseq.
+  - exact node_fmap.
+Qed.
+
+(* ---------- one document: stream start, document start, root node, document end, stream end ---------- *)
+Require Import SBase SPrim SDir SScalar SFetch Pipe.
+
+Lemma steps_no_end p e evs q : steps p (e :: evs) q -> p_state p <> SEnd.
+Proof. intros H. inversion H; subst. intros E. unfold state_machine in *. rewrite E in *. discriminate. Qed.
+
+(* a run of the state machine is what parse_all does, as long as the fuel lasts *)
+Lemma steps_parse_all p evs q : steps p evs q ->
+  forall f se acc, exists l, map fst l = evs /\
+    parse_all (length evs + f) p se acc = parse_all f q se (rev l ++ acc).
+Proof.
+  induction 1 as [p | p e sp p' evs p'' Hs Hst IH]; intros f se acc.
+  - exists []. split; reflexivity.
+  - destruct (IH f se ((e, sp) :: acc)) as (l & El & Ep).
+    exists ((e, sp) :: l). split; [cbn; f_equal; exact El|].
+    cbn [length plus parse_all].
+    assert (Hne : p_state p <> SEnd).
+    { intros E. unfold state_machine in Hs. rewrite E in Hs. discriminate. }
+    destruct (p_state p) eqn:ES; try congruence; rewrite Hs, Ep; cbn [rev]; rewrite <- app_assoc; reflexivity.
+Qed.
+
+Definition init_p (toks : list token) (keep : bool) : parser := mkp toks None SStreamStart [] [] 1%N [] keep.
+
+Definition doc_state (es : bool) : pstate := if es then SDocumentContent else SBlockNode.
+
+Lemma doc_open es sp0 (tds u : list token) keep :
+  map snd tds = flag es TDocumentStart ->
+  (es = true \/ exists sy y u', u = (sy, y) :: u' /\ is_start y = true) ->
+  exists p1, steps (init_p ((sp0, TStreamStart) :: tds ++ u) keep) [EStreamStart; EDocumentStart es] p1 /\
+     view p1 = mkv u (doc_state es) [SDocumentEnd] [] 1%N [] keep.
+Proof.
+  intros Hm Hu. destruct es; cbn in Hm.
+  - apply map_snd_cons in Hm as (sd & t2 & -> & Hm). apply map_snd_nil in Hm as ->. cbn [app].
+    eexists. split.
+    + econstructor; [reflexivity|]. econstructor; [reflexivity|]. constructor.
+    + reflexivity.
+  - apply map_snd_nil in Hm as ->. cbn [app]. destruct Hu as [?|(sy & y & u' & -> & Hy)]; [discriminate|].
+    destruct y; try discriminate;
+      (eexists; split; [econstructor; [reflexivity|]; econstructor; [reflexivity|]; constructor | reflexivity]).
+Qed.
+
+Lemma state_machine_content p u k a n tg kp :
+  view p = mkv u SDocumentContent k a n tg kp -> state_machine p = document_content p.
+Proof. intros H. unfold state_machine. rewrite (view_state _ _ _ _ _ _ _ _ H). reflexivity. Qed.
+Lemma state_machine_blocknode p u k a n tg kp :
+  view p = mkv u SBlockNode k a n tg kp -> state_machine p = parse_node p true false.
+Proof. intros H. unfold state_machine. rewrite (view_state _ _ _ _ _ _ _ _ H). reflexivity. Qed.
+Lemma state_machine_docend p u k a n tg kp :
+  view p = mkv u SDocumentEnd k a n tg kp -> state_machine p = document_end p.
+Proof. intros H. unfold state_machine. rewrite (view_state _ _ _ _ _ _ _ _ H). reflexivity. Qed.
+
+Definition doc_follow (x : tok) : bool := match x with TDocumentEnd | TStreamEnd => true | _ => false end.
+
+Lemma doc_content es t p1 (tt : list token) x rest keep :
+  wf_root es t = true ->
+  view p1 = mkv (tt ++ x :: rest) (doc_state es) [SDocumentEnd] [] 1%N [] keep ->
+  map snd tt = tokens_of t -> doc_follow (snd x) = true ->
+  bound [] env0 (pre_events t) = true ->
+  exists p2, steps p1 (events_of t) p2 /\
+     view p2 = mkv (x :: rest) SDocumentEnd [] (ae_map (env_after env0 (pre_events t))) (ae_next (env_after env0 (pre_events t))) [] keep.
+Proof.
+  intros Hw Hv Hm Hx Hb. unfold wf_root in Hw. unfold events_of.
+  assert (Hfx : follow (snd x) = true) by (destruct (snd x); try discriminate; reflexivity).
+  destruct (is_none t) eqn:EN.
+  - (* the root node is left out: only after '---' *)
+    subst es. destruct t; try discriminate. cbn [tokens_of] in Hm. apply map_snd_nil in Hm as ->. cbn [app] in Hv.
+    destruct x as [sx tx]. cbn [snd] in Hx.
+    eexists. split.
+    + apply run_steps. cbn [pre_events number number1 pnull reg fst]. eapply run_one.
+      rewrite (state_machine_content p1 _ _ _ _ _ _ Hv). unfold document_content. vpeek Hv.
+      destruct tx; try discriminate; reflexivity.
+    + reflexivity.
+  - destruct (first_tok_spanned _ _ _ _ Hw Hm) as (sp0 & y0 & tt' & -> & [S0 | [? _]]); [|discriminate].
+    cbn [app] in Hv.
+    destruct (node_spec t true false (mkp (tt' ++ x :: rest) (Some (sp0, y0)) (doc_state es) [SDocumentEnd] [] 1%N [] keep)
+                ((sp0, y0) :: tt') x rest (doc_state es) SDocumentEnd [] env0 [] keep Hw eq_refl Hm Hfx ltac:(discriminate) Hb
+                ltac:(reflexivity)) as (p2 & R2 & V2).
+    exists p2. split; [|exact V2]. apply run_steps.
+    eapply run_eq; [|exact R2].
+    destruct es; cbn [doc_state] in *.
+    + rewrite (state_machine_content p1 _ _ _ _ _ _ Hv). unfold document_content. vpeek Hv.
+      start_cases y0; reflexivity.
+    + rewrite (state_machine_blocknode p1 _ _ _ _ _ _ Hv). unfold parse_node. vpeek Hv. reflexivity.
+Qed.
+
+Lemma doc_close ee p2 (tde : list token) spE a n keep :
+  view p2 = mkv (tde ++ [(spE, TStreamEnd)]) SDocumentEnd [] a n [] keep ->
+  map snd tde = flag ee TDocumentEnd ->
+  exists p3, steps p2 [EDocumentEnd; EStreamEnd] p3 /\ p_state p3 = SEnd.
+Proof.
+  intros Hv Hm. destruct ee; cbn in Hm.
+  - apply map_snd_cons in Hm as (sd & t2 & -> & Hm). apply map_snd_nil in Hm as ->. cbn [app] in Hv.
+    eexists. split.
+    + econstructor.
+      * rewrite (state_machine_docend p2 _ _ _ _ _ _ Hv). unfold document_end. vpeek Hv. destruct keep; reflexivity.
+      * econstructor; [|constructor]. destruct keep; reflexivity.
+    + destruct keep; reflexivity.
+  - apply map_snd_nil in Hm as ->. cbn [app] in Hv.
+    eexists. split.
+    + econstructor.
+      * rewrite (state_machine_docend p2 _ _ _ _ _ _ Hv). unfold document_end. vpeek Hv. destruct keep; reflexivity.
+      * econstructor; [|constructor]. destruct keep; reflexivity.
+    + destruct keep; reflexivity.
+Qed.
+
+Lemma doc_steps t es ee toks keep :
+  wf_root es t = true -> bound [] env0 (pre_events t) = true ->
+  map snd toks = wrap es ee (tokens_of t) ->
+  exists p3, steps (init_p toks keep) (wrap_events es (events_of t)) p3 /\ p_state p3 = SEnd.
+Proof.
+  intros Hw Hb Hm. unfold wrap in Hm.
+  apply map_snd_cons in Hm as (sp0 & t1 & -> & Hm).
+  apply map_snd_app in Hm as (tds & t2 & -> & Hmds & Hm).
+  apply map_snd_app in Hm as (tt & t3 & -> & Hmt & Hm).
+  apply map_snd_app in Hm as (tde & t4 & -> & Hmde & Hm).
+  apply map_snd_cons in Hm as (spE & t5 & -> & Hm). apply map_snd_nil in Hm as ->.
+  assert (Hx : exists x rest, tde ++ [(spE, TStreamEnd)] = x :: rest /\ doc_follow (snd x) = true).
+  { destruct ee; cbn in Hmde.
+    - apply map_snd_cons in Hmde as (sd & t6 & -> & _). cbn. eauto.
+    - apply map_snd_nil in Hmde as ->. cbn. eauto. }
+  destruct Hx as (x & rest & Ex & Hx).
+  assert (Hu : es = true \/ exists sy y u', tt ++ tde ++ [(spE, TStreamEnd)] = (sy, y) :: u' /\ is_start y = true).
+  { destruct es; [left; reflexivity|right]. unfold wf_root in Hw. destruct (is_none t) eqn:EN; [discriminate|].
+    destruct (first_tok_spanned _ _ _ _ Hw Hmt) as (sy & y & tt' & -> & [S0 | [? _]]); [|discriminate].
+    cbn. eauto. }
+  destruct (doc_open es sp0 tds (tt ++ tde ++ [(spE, TStreamEnd)]) keep Hmds Hu) as (p1 & R1 & V1).
+  unfold token in *. rewrite Ex in V1.
+  destruct (doc_content es t p1 tt x rest keep Hw V1 Hmt Hx Hb) as (p2 & R2 & V2).
+  destruct (doc_close ee p2 tde spE _ _ keep ltac:(rewrite V2; f_equal; symmetry; exact Ex) Hmde) as (p3 & R3 & E3).
+  exists p3. split; [|exact E3]. unfold wrap_events.
+  change (EStreamStart :: EDocumentStart es :: events_of t ++ [EDocumentEnd; EStreamEnd])
+    with ([EStreamStart; EDocumentStart es] ++ events_of t ++ [EDocumentEnd; EStreamEnd]).
+  eapply steps_app; [exact R1|]. eapply steps_app; [exact R2 | exact R3].
+Qed.
+
+(* the parser model on the token list of a document: exactly the denoted events, and the run ends normally *)
+Theorem parse_wrap t es ee toks keep se fuel :
+  wf_root es t = true -> bound [] env0 (pre_events t) = true ->
+  map snd toks = wrap es ee (tokens_of t) ->
+  (length (wrap_events es (events_of t)) < fuel)%nat ->
+  map fst (fst (parse_all fuel (init_p toks keep) se [])) = wrap_events es (events_of t) /\
+  snd (parse_all fuel (init_p toks keep) se []) = PDone.
+Proof.
+  intros Hw Hb Hm Hf.
+  destruct (doc_steps t es ee toks keep Hw Hb Hm) as (p3 & R & E3).
+  set (evs := wrap_events es (events_of t)) in *.
+  destruct (steps_parse_all _ _ _ R (fuel - length evs)%nat se []) as (l & El & Ep).
+  replace (length evs + (fuel - length evs))%nat with fuel in Ep by lia.
+  rewrite Ep. destruct (fuel - length evs)%nat as [|f] eqn:Ef; [lia|].
+  cbn [parse_all]. rewrite E3. cbn [fst snd]. split; [|reflexivity].
+  rewrite app_nil_r, rev_involutive. exact El.
 Qed.
